@@ -1038,7 +1038,9 @@ func (agg *aggregate) Process(ctx context.Context, man gdbi.Manager, in gdbi.InP
 					if val != nil {
 						fval, err := cast.ToFloat64E(val)
 						if err != nil {
+							// not a number: reported, and not counted as a 0
 							outErr = fmt.Errorf("histogram aggregation: can't convert %v to float64", val)
+							continue
 						}
 						fieldValues = append(fieldValues, fval)
 						if c > maxValues {
